@@ -170,7 +170,7 @@ def tlc(module, cfg, files=None, workers="auto", mode="mc", sim=None, timeout=90
         r.violated, r.kind = "temporal", "temporal"
     elif "Deadlock reached" in out:
         r.violated, r.kind = "deadlock", "deadlock"
-    elif re.search(r"Postcondition|POSTCONDITION", out) and "violated" in out:
+    elif re.search(r"Postcondition \S+ .*is false", out):
         r.violated, r.kind = "postcondition", "postcondition"
     elif re.search(r"Assumption .* is false", out):
         r.violated, r.kind = "assume", "assume"
@@ -191,7 +191,7 @@ def tlc(module, cfg, files=None, workers="auto", mode="mc", sim=None, timeout=90
     log(f"TLC {module} [{mode}] {r.wall:.1f}s generated={r.generated} distinct={r.distinct} "
         f"{'OK' if r.ok else 'VIOLATED ' + str(r.violated)}")
     if r.kind == "error":
-        raise Infra(f"TLC error on {module}:\n{out[-4000:]}")
+        i = out.find("Error:"); raise Infra(f"TLC error on {module}:\n{out[i:i+2500]}\n...\n{out[-1500:]}")
     r.dir = d
     return r
 
@@ -234,13 +234,23 @@ def validate_traces(module, cfg, trace_path, timeout=900, heap="8g", depth_first
     return res
 
 
-def cex_last_l(cex):
-    """Extract the value of trace position variable `l` from the last state of a json counterexample."""
+def cex_states(cex):
+    """List of state dicts of a TLC json counterexample."""
     try:
-        st = cex["state"][-1]
-        if isinstance(st, list):
-            st = st[1]
-        return int(st.get("l"))
+        c = cex.get("counterexample", cex)
+        out = []
+        for st in c["state"]:
+            out.append(st[1] if isinstance(st, list) else st)
+        return out
+    except Exception:
+        return []
+
+
+def cex_last_l(cex):
+    """Value of the trace position variable `l` in the last state of a json counterexample."""
+    st = cex_states(cex)
+    try:
+        return int(st[-1]["l"])
     except Exception:
         return None
 
